@@ -352,6 +352,43 @@ def exR : Obj Unit :=
    false, ()⟩
 theorem exR_eq : reindex .list exO [12, 99, 10, 12] .none none [("S", .s ['-'])] = .ok exR := rfl
 
+/-- **A label-addressed read survives `reindex`.**  For a label present in both spans, reading the result at that label
+    (`list.index` on the NEW span) gives what reading the original at that label gives (`list.index` on the OLD span) —
+    whatever else the spans contain: permuted, shrunk, extended at either end, with the label repeated in either.
+    (Corollary of `reindex_spec` and `first_occurrence`; it is the form in which a stale label→position table or a
+    last-occurrence position map shows: the result would answer `obj[name, label]` differently from the original.) -/
+theorem reindex_label_read (o : Obj M) (new : List Nat) (fv : PyVal) (sa : Option Bool) (fills : List (String × PyVal))
+    (r : Obj M) (h : reindex .list o new fv sa fills = .ok r)
+    (j : Nat) (name : String) (ser : Series) (hj : o.vars[j]? = some (name, ser))
+    (l k i : Nat) (hk : firstIndex l o.span = some k) (hi : firstIndex l r.span = some i) :
+    ∃ data, r.vars[j]? = some (name, ⟨ser.dtype, data⟩) ∧ data[i]? = ser.data[k]? := by
+  obtain ⟨hspan, _, hv⟩ := reindex_spec o new fv sa fills r h
+  obtain ⟨data, fill, hr, _, _, hd⟩ := hv j name ser hj
+  rw [hspan] at hi
+  have hil := ((first_occurrence l new).1 i hi).1
+  refine ⟨data, hr, ?_⟩
+  rw [hd i l hil, hk]
+
+/-- … and a label absent from the old span reads as the variable's fill value in the result. -/
+theorem reindex_new_label_read (o : Obj M) (new : List Nat) (fv : PyVal) (sa : Option Bool) (fills : List (String × PyVal))
+    (r : Obj M) (h : reindex .list o new fv sa fills = .ok r)
+    (j : Nat) (name : String) (ser : Series) (hj : o.vars[j]? = some (name, ser))
+    (l i : Nat) (hk : firstIndex l o.span = none) (hi : firstIndex l r.span = some i) :
+    ∃ data fill, r.vars[j]? = some (name, ⟨ser.dtype, data⟩) ∧
+      coerce ser.dtype (chosenFill fills fv name) = .ok fill ∧ data[i]? = some fill := by
+  obtain ⟨hspan, _, hv⟩ := reindex_spec o new fv sa fills r h
+  obtain ⟨data, fill, hr, _, hc, hd⟩ := hv j name ser hj
+  rw [hspan] at hi
+  have hil := ((first_occurrence l new).1 i hi).1
+  refine ⟨data, fill, hr, hc, ?_⟩
+  rw [hd i l hil, hk]
+
+-- non-vacuity: the label 12 is repeated in the new span and sits at another position than in the old one
+example : ∃ data, exR.vars[0]? = some ("X", ⟨.int (-128) 127, data⟩) ∧ data[0]? = some (.i 3) := by
+  obtain ⟨data, h1, h2⟩ := reindex_label_read exO [12, 99, 10, 12] .none none [("S", .s ['-'])] exR exR_eq
+    0 "X" _ rfl 12 2 0 (by decide) (by decide)
+  exact ⟨data, h1, h2.trans (by decide)⟩
+
 -- reindex_spec / reindex_preserves_meta: `h`
 example : exR.span = [12, 99, 10, 12] ∧ exR.vars.length = exO.vars.length :=
   ⟨(reindex_spec _ _ _ _ _ _ exR_eq).1, (reindex_spec _ _ _ _ _ _ exR_eq).2.1⟩
